@@ -376,14 +376,23 @@ func xRecordDecl(name string, nm *types.Named, x *xl) string {
 }
 
 func xlateAll(root string) (string, []string) {
-	var out, errs []string
+	out, errs := xlateUnits(root, xUnits)
+	head := "(* GENERATED from the Go source of the tree by `harness gen-translated` on every run - do not edit.\n" +
+		"   Translator: harness/xlate.go; units: harness/xlate_units.go; target language: Xlate/GoSem.v; see design/XLATE.md *)\n" +
+		"From Coq Require Import List NArith ZArith Bool.\nFrom TarsV Require Import Xlate.GoSem.\nImport ListNotations.\nOpen Scope Z_scope.\n\n"
+	return head + strings.Join(out, "\n"), errs
+}
+
+// xlateUnits: the definitions (with the constants and records they use) of the units, and the errors of those that
+// are outside the subset
+func xlateUnits(root string, units []xUnit) (out, errs []string) {
 	ld := newXLoader(root)
 	records := map[string]*types.Named{}
 	var recOrd, constOrd []string
 	consts := map[string]string{}
 	emitted, emittedC := 0, 0
-	for i := range xUnits {
-		u := &xUnits[i]
+	for i := range units {
+		u := &units[i]
 		func() {
 			defer func() {
 				if r := recover(); r != nil {
@@ -414,10 +423,7 @@ func xlateAll(root string) (string, []string) {
 			out = append(out, def)
 		}()
 	}
-	head := "(* GENERATED from the Go source of the tree by `harness gen-translated` on every run - do not edit.\n" +
-		"   Translator: harness/xlate.go; units: harness/xlate_units.go; target language: Xlate/GoSem.v; see design/XLATE.md *)\n" +
-		"From Coq Require Import List NArith ZArith Bool.\nFrom TarsV Require Import Xlate.GoSem.\nImport ListNotations.\nOpen Scope Z_scope.\n\n"
-	return head + strings.Join(out, "\n"), errs
+	return out, errs
 }
 
 func init() {
